@@ -664,6 +664,9 @@ func mapNames(mt *types.Map) (valMem []string, domMem, lenMem string, ksort stri
 		return nil, "", "", "", false
 	}
 	ksort = ksh[0].Sort
+	if ksh[0].Kind == KArr {
+		ksort = "Int" // array keys are mapped to Int by the uninterpreted function akey (see mapKey)
+	}
 	key := typeKey(mt.Key()) + "," + elemKey(mt.Elem())
 	for _, lf := range shapeOf(mt.Elem()) {
 		valMem = append(valMem, "MV|"+key+"|"+lf.Path)
@@ -684,7 +687,28 @@ func (c *Ctx) mapInit(h *Heap, r string, mt *types.Map) *Heap {
 	return h
 }
 
+// mapKey: the SMT key term of a Go map key. Array-typed keys (e.g. [20]byte) are abstracted to
+// Int by an uninterpreted function of the array value (cvc5 cannot index arrays by arrays):
+// equal arrays give equal keys; the real semantics is one of the admitted interpretations.
+func (c *Ctx) mapKey(mt *types.Map, k Val) Val {
+	ksh := shapeOf(mt.Key())
+	if len(ksh) == 1 && ksh[0].Kind == KArr && len(k) == 1 {
+		fn := c.uf("akey|"+ksh[0].Sort, []string{ksh[0].Sort}, "Int")
+		if ksh[0].Len <= 64 && ksh[0].Elem.Kind == KInt {
+			// canonical form: rebuild the array from its first N elements so that arrays equal on 0..N-1 get the same key
+			arr := constArr(ksh[0].Sort, "0")
+			for i := int64(0); i < ksh[0].Len; i++ {
+				arr = sto(arr, num(i), c.sel(k[0], num(i)))
+			}
+			return Val{c.bind("akey", "Int", app(fn, arr))}
+		}
+		return Val{c.bind("akey", "Int", app(fn, k[0]))}
+	}
+	return k
+}
+
 func (c *Ctx) mapLoad(h *Heap, m string, mt *types.Map, k Val) (Val, string) {
+	k = c.mapKey(mt, k)
 	vm, dm, _, ks, ok := mapNames(mt)
 	esh := shapeOf(mt.Elem())
 	if !ok {
@@ -708,6 +732,7 @@ func (c *Ctx) mapLoad(h *Heap, m string, mt *types.Map, k Val) (Val, string) {
 }
 
 func (c *Ctx) mapStore(h *Heap, m string, mt *types.Map, k, v Val) *Heap {
+	k = c.mapKey(mt, k)
 	vm, dm, lm, ks, ok := mapNames(mt)
 	if !ok {
 		c.note("map-compound-key")
@@ -731,6 +756,7 @@ func (c *Ctx) mapStore(h *Heap, m string, mt *types.Map, k, v Val) *Heap {
 }
 
 func (c *Ctx) mapDelete(h *Heap, m string, mt *types.Map, k Val) *Heap {
+	k = c.mapKey(mt, k)
 	_, dm, lm, ks, ok := mapNames(mt)
 	if !ok {
 		c.note("map-compound-key")
